@@ -180,6 +180,12 @@ SCOPE_TEMPLATES = [
     ("comp-var-declared-global", "x = 1\ndef f():\n    global x\n    r = [x for x in (5, 6)]\n    return x\nR = [f(), x]\n", "comp-var-declared-global"),
     ("del-missing-global", "x = 1\ndef f():\n    global x\n    del x\nf()\ntry:\n    f()\n    R = 'no error'\nexcept NameError:\n    R = 'NameError'\n", "del-missing-global"),
     ("handler-declared-global", "y = 0\ndef f():\n    global y\n    try:\n        raise ValueError(3)\n    except ValueError as y:\n        r = y.args\n    return r\nR = f()\n"),
+    ("class-body-call-then-method", "def deco(fn):\n    return fn\ndef mk(n):\n    class C:\n        @deco\n        def first(self):\n            return n\n        def second(self):\n            return n + 1\n    return C()\nc1 = mk(5)\nR = [c1.first(), c1.second()]\n"),
+    ("class-body-call-then-nonlocal", "def helper(q):\n    return q\ndef mk():\n    count = 0\n    class C:\n        tag = helper(5)\n        def bump(self):\n            nonlocal count\n            count += 1\n            return count\n    c1 = C()\n    return [c1.bump(), c1.bump(), count, C.tag]\nR = mk()\n"),
+    ("class-then-nested-def", "def helper(q):\n    return q\ndef mk(n):\n    class C:\n        tag = helper(1)\n    def after():\n        return n\n    return [after(), C.tag]\nR = mk(7)\n"),
+    ("dup-keyword-splat-first", "def f(**kw):\n    return kw\ntry:\n    R = f(**{'a': 1}, a=2)\nexcept TypeError:\n    R = 'TypeError'\n"),
+    ("dup-keyword-splat-first-positional", "def g(p, **kw):\n    return (p, kw)\ntry:\n    R = g(1, **{'c': 1}, c=2)\nexcept TypeError:\n    R = 'TypeError'\n"),
+    ("dup-keyword-method", "class O:\n    def m(self, **kw):\n        return kw\no1 = O()\ntry:\n    R = o1.m(**{'x': 1}, x=2)\nexcept TypeError:\n    R = 'TypeError'\n"),
     ("posonly-kwargs", "def f(p, /, **kw):\n    return (p, kw)\ntry:\n    R = f(1, p=2)\nexcept TypeError:\n    R = 'TypeError'\n", "posonly-name-in-kwargs"),
 ]
 
@@ -258,6 +264,22 @@ class ScopeGen:
                     locs.add(v)
             elif k < 0.75:
                 body.append(f"T('{name}.read{v}', {v})")
+            elif k < 0.81 and depth_nested is not None and not getattr(self, "no_classes", False):
+                # a class inside the function: its body calls a script function (a helper defined just before), and methods
+                # defined before and after that call use the variables of the enclosing function (class scope is skipped)
+                cn = f"K{next(self.n)}"
+                hn = f"h{next(self.n)}"
+                w = rng.choice(["x", "y"])
+                m2 = [f"        return T('{cn}.m2', {w})"]
+                if rng.random() < 0.4 and (w in locs) and not (decl and decl[1] == w):
+                    m2 = [f"        nonlocal {w}", f"        {w} = T('{cn}.m2set', {rng.randrange(10)})", f"        return {w}"]
+                body += [f"def {hn}(q):", "    return q",
+                         f"class {cn}:",
+                         f"    def m1(self):", f"        return T('{cn}.m1', {v})",
+                         f"    tag = {hn}(T('{cn}.tag', {rng.randrange(10)}))",
+                         f"    def m2(self):"] + ["    " + l[4:] if False else l for l in m2] + [
+                         f"T('{name}.k1', {cn}().m1())", f"T('{name}.k2', {cn}().m2())", f"T('{name}.k3', {cn}.tag)"]
+                locs |= {cn, hn}
             elif depth > 0:
                 sub_name, sub_src, sub_params = self.func(depth - 1, locs | enclosing_locals, True)
                 body.extend(sub_src)
